@@ -17,7 +17,7 @@ Definition j1 (o : obs) (i : iobs) : list bool :=
   match o, i with
   | OWrite, IWrite => [true; true]
   | OAns _ _, IAns x => [ans_allowed x o; ans_ok x o]
-  | ODict b t, IDict c a => [Bool.eqb b c && Bool.eqb t a; Bool.eqb c a]
+  | ODict b t u, IDict c a => [u || (Bool.eqb b c && Bool.eqb t a); Bool.eqb c a]
   | _, _ => [false; false]
   end.
 Fixpoint jall (os : list obs) (xs : list iobs) : list (list bool) :=
@@ -171,12 +171,19 @@ def evaluate(ctx, cases):
     vlib.build_harness("c19")
 
     def one_mode(env):
-        # one dispatcher per mode (3 jobs in parallel); the dispatcher runs every history in a process of its own
-        idx = [i for i, c in enumerate(cases) if c["mode"] == env]
-        if not idx:
-            return []
+        # one engine process per mode (3 jobs in parallel).  A history must start in a process whose BUILD_LOCK is
+        # usable: in Build mode the harness probes that after every history and retires (exits) when a history has
+        # poisoned the lock; the histories it did not reach are submitted to a new process.
+        pending = [i for i, c in enumerate(cases) if c["mode"] == env]
         e = {"QE_IPC_CACHE": env} if env is not None else {}
-        return list(zip(idx, vlib.run_harness("c19", [harness_ops(cases[i]) for i in idx], env=e, timeout=6000)))
+        done = []
+        while pending:
+            rs = vlib.run_harness("c19", [harness_ops(cases[i]) for i in pending], env=e, timeout=6000)
+            n = next((k for k, r in enumerate(rs) if "no output" in str(r.get("harness_error", ""))), len(rs))
+            n = max(n, 1)      # no progress at all: keep the error as this history's output
+            done += list(zip(pending[:n], rs[:n]))
+            pending = pending[n:]
+        return done
     try:
         with ThreadPoolExecutor(max_workers=3) as ex:
             for part in ex.map(one_mode, [env for env, _ in MODES]):
